@@ -9,7 +9,7 @@ import time
 HERE = os.path.dirname(os.path.dirname(os.path.abspath(__file__)))
 PRELUDE = os.path.join(HERE, "prelude")
 SPECS = os.path.join(HERE, "specs")
-MEM_KB = int(os.environ.get("VERIF_MEM_KB", str(12 * 1024 * 1024)))
+MEM_KB = int(os.environ.get("VERIF_MEM_KB", str(3600 * 1024)))   # 16 parallel jobs on a 62 GB machine
 
 DEFAULT_CHECKS = ["--bounds-check", "--pointer-check", "--pointer-overflow-check",
                   "--signed-overflow-check", "--div-by-zero-check", "--undefined-shift-check",
